@@ -4,6 +4,7 @@ import (
 	"fmt"
 	"go/token"
 	"go/types"
+	"strings"
 
 	"golang.org/x/tools/go/ssa"
 )
@@ -233,9 +234,34 @@ func c07(r *Report) {
 		// goroutine: http.ReadRequest is called from a goroutine literal, never on the
 		// goroutine that selects
 		inline := 0
-		for _, c := range calls(rd, "net/http.ReadRequest") {
-			inline++
-			pos = c.Pos()
+		{
+			// functions run on the selecting goroutine: rd itself and whatever it calls
+			// (closures included) other than through `go`
+			seen := map[*ssa.Function]bool{}
+			var visit func(f *ssa.Function)
+			visit = func(f *ssa.Function) {
+				if f == nil || seen[f] || f.Blocks == nil {
+					return
+				}
+				seen[f] = true
+				for _, in := range instrs(f) {
+					switch x := in.(type) {
+					case *ssa.Call:
+						if calleeName(x) == "net/http.ReadRequest" {
+							inline++
+							pos = x.Pos()
+						}
+						if sc := x.Call.StaticCallee(); sc != nil && strings.HasPrefix(sc.String(), "(*"+M+".Proxy).readRequest$") {
+							visit(sc)
+						}
+					case *ssa.Defer:
+						if sc := x.Call.StaticCallee(); sc != nil && sc.Parent() != nil {
+							visit(sc)
+						}
+					}
+				}
+			}
+			visit(rd)
 		}
 		spawned := 0
 		for _, in := range instrs(rd) {
@@ -359,6 +385,9 @@ func c07(r *Report) {
 	})
 
 	r.Guard("C07.R5", "an exchange whose request modifier has started is not cut by shutdown", func() {
+		// its response is written and flushed on every normal exit (an unflushed response is
+		// lost when shutdown closes the connection)
+		responseWrittenRule(r, handle)
 		g := G(handle)
 		// no select and no receive on p.closing in the exchange functions
 		for _, f := range []*ssa.Function{handle, r.Use("", "Proxy.handleConnectRequest"), r.W.Fn("", "Proxy.roundTrip")} {
